@@ -160,6 +160,46 @@ class GenerateDependencesPair(AreDependent):
         H.check('writes-that-do-not-commute-are-ordered', implies(snot(commute), ordered))
 
 
+class GenerateDependencesLoadStore(GenerateDependencesPair):
+    """generate_dependences on a trace of one load and one store (either order): ordered whenever the two may touch one location"""
+
+    def __init__(self, kload, kstore, loc, shape, load_first):
+        AreDependent.__init__(self, kload, kstore, loc, shape)
+        self.load_first = load_first
+        self.same_value = False
+        self.name = "generate_dependences[%s,%s,%s,%s]" % ((kload, kstore) if load_first else (kstore, kload), '', shape, 'load-store')
+        self.name = "generate_dependences[%s %s,%s]" % ("%s;%s" % ((kload, kstore) if load_first else (kstore, kload)), shape, loc)
+
+    def run(self, H):
+        c1, c2 = self.shape[0] == 'c', self.shape[1] == 'c'
+        a1, v1 = self.addr(H, 'a1', c1)          # the load
+        a2, v2 = self.addr(H, 'a2', c2)          # the store
+        H.set_global(go, 'extra_dep_info', {})
+        H.set_global(go, 'mem40_pattern', False)
+        H.set_global(go, 'u_dict', {})
+        n1 = None
+        if self.k1.startswith("keccak"):
+            n1 = H.word('hash_len')
+            tl = ((a1, H.it.to_str(n1) if H.symbolic else str(n1), self.k1), 2)
+        else:
+            tl = ((a1, self.k1), 1)
+        ts = ((a2, "s(9)", self.k2), 2)
+        trace = [tl, ts] if self.load_first else [ts, tl]
+        out = H.call(go.generate_dependences, trace, self.loc)
+        H.check('raises-nothing', out.ok, info=repr(out.exc))
+        if not out.ok:
+            return
+        ordered = (0, 1) in [tuple(x) for x in out.value]
+        if self.loc == "storage":
+            overlap = (v1 == v2) if (c1 and c2) else True
+        elif c1 and c2:
+            w1 = n1 if n1 is not None else 32
+            overlap = sand(v1 < v2 + width(self.k2), v2 < v1 + w1)
+        else:
+            overlap = True
+        H.check('a load and a store that may touch one location are ordered', implies(overlap, ordered))
+
+
 def get_variables_stub(it, var, lst):
     return None
 
@@ -320,5 +360,10 @@ def cases(tier='quick'):
     for shape in ('cc', 'cs', 'sc', 'ss'):
         for same in (False, True):
             cs.append(GenerateDependencesPair("sstore", "sstore", "storage", shape, same))
+    for kl, ks, loc in (("mload0", "mstore", "memory"), ("mload0", "mstore8", "memory"), ("keccak2560", "mstore", "memory"),
+                        ("keccak2560", "mstore8", "memory"), ("sload1", "sstore", "storage")):
+        for shape in ('cc', 'cs', 'sc', 'ss'):
+            for first in (True, False):
+                cs.append(GenerateDependencesLoadStore(kl, ks, loc, shape, first))
     cs.append(SpecDenotesBlock())
     return cs, {}
